@@ -646,5 +646,53 @@ func checkC23(c *vlib.Ctx) {
 			c.Sample(map[string]any{"commands": descs(hist)})
 		}
 	}
+	// (3) directed RBAC cascades: a team with 2-4 roles (one measurement permission and
+	// optionally one more role each), some of the roles deleted one by one, optionally
+	// another role created afterwards, then the team or its organization deleted. The
+	// random family reaches "prune siblings, then delete the parent" only rarely.
+	now := t0.UnixNano()
+	cascades := 0
+	for nRoles := 2; nRoles <= 4; nRoles++ {
+		for mask := 1; mask < (1<<nRoles)-1; mask++ { // non-empty proper subsets of the roles
+			for _, extra := range []bool{false, true} {
+				for _, parent := range []string{"team", "org"} {
+					f := newFSM()
+					var hist []Cmd
+					idx := uint64(0)
+					step := func(cmd Cmd) bool {
+						idx++
+						hist = append(hist, cmd)
+						return stepC23(c, f, idx, cmd, hist)
+					}
+					ok := step(mk(araft.CommandCreateOrganization, "create-org", araft.CreateOrganizationPayload{Organization: araft.OrganizationEntry{Name: "o", CreatedAtUnixNano: now}}))
+					orgID := int64(idx)
+					ok = ok && step(mk(araft.CommandCreateTeam, "create-team", araft.CreateTeamPayload{Team: araft.TeamEntry{OrganizationID: orgID, Name: "t", CreatedAtUnixNano: now}}))
+					teamID := int64(idx)
+					var roleIDs []int64
+					for r := 0; ok && r < nRoles; r++ {
+						ok = step(mk(araft.CommandCreateRole, "create-role", araft.CreateRolePayload{Role: araft.RoleEntry{TeamID: teamID, DatabasePattern: fmt.Sprintf("db%d", r), Permissions: "read", CreatedAtUnixNano: now}}))
+						roleIDs = append(roleIDs, int64(idx))
+						ok = ok && step(mk(araft.CommandCreateMeasurementPermission, "create-mperm", araft.CreateMeasurementPermissionPayload{MeasurementPermission: araft.MeasurementPermissionEntry{RoleID: int64(idx), MeasurementPattern: "cpu", Permissions: "read", CreatedAtUnixNano: now}}))
+					}
+					for r := 0; ok && r < nRoles; r++ {
+						if mask&(1<<r) != 0 {
+							ok = step(mk(araft.CommandDeleteRole, "delete-role", araft.DeleteRolePayload{ID: roleIDs[r]}))
+						}
+					}
+					if ok && extra {
+						ok = step(mk(araft.CommandCreateRole, "create-role", araft.CreateRolePayload{Role: araft.RoleEntry{TeamID: teamID, DatabasePattern: "late", Permissions: "write", CreatedAtUnixNano: now}}))
+					}
+					if ok && parent == "team" {
+						step(mk(araft.CommandDeleteTeam, "delete-team", araft.DeleteTeamPayload{ID: teamID}))
+					} else if ok {
+						step(mk(araft.CommandDeleteOrganization, "delete-org", araft.DeleteOrganizationPayload{ID: orgID}))
+					}
+					cascades++
+					c.Nontrivial(fmt.Sprintf("cascade|%d|%d|%v|%s", nRoles, mask, extra, parent))
+				}
+			}
+		}
+	}
+	c.Count("directed_rbac_cascades", int64(cascades))
 	c.Floor(100)
 }
